@@ -53,12 +53,18 @@ def jIntList (j : Json) : Except String (List Int) := do
   let a ← jArr j
   a.toList.mapM jInt
 
+/-- an application as the harness reports it: [priority, allocated] entries; the model keeps the outstanding ones -/
+def jAppEntries (j : Json) : Except String (List Int) := do
+  let a ← jArr j
+  let es ← a.toList.mapM (fun e => do let p ← jArr e; pure (← jInt p[0]!, ← jBool p[1]!))
+  pure (outstanding es)
+
 def jPrioLeaf (j : Json) : Except String PrioLeaf := do
-  pure { fence := ← (fld j "fence") >>= jBool, offset := ← (fld j "offset") >>= jInt, apps := ← (fld j "apps") >>= jListOf jIntList }
+  pure { fence := ← (fld j "fence") >>= jBool, offset := ← (fld j "offset") >>= jInt, apps := ← (fld j "apps") >>= jListOf jAppEntries }
 
 def jPrioQueue (j : Json) : Except String PrioQueue := do
   pure { fence := ← (fld j "fence") >>= jBool, offset := ← (fld j "offset") >>= jInt, leaf := ← (fld j "leaf") >>= jBool,
-         apps := ← (fld j "apps") >>= jListOf jIntList, kids := ← (fld j "kids") >>= jListOf jPrioLeaf }
+         apps := ← (fld j "apps") >>= jListOf jAppEntries, kids := ← (fld j "kids") >>= jListOf jPrioLeaf }
 
 /-- the priority key is computed by the model (policy, offset, ask priorities below); `GetCurrentPriority` is only compared -/
 def jChild (j : Json) : Except String Child := do
